@@ -382,6 +382,14 @@ def rebuilt_continuation(V, e, spec, m):
             return
         rows[tag] = {ev[2]: ev[3] for ev in mm.events if ev[0] == 'emit' and ev[1] == 'history' and ev[2] > now}
     a, b = rows['continued'], rows['rebuilt']
+    if any(op[0] == 'delete_sub' for ev in m.events if ev[0] == 'struct' for op in ev[1]):
+        # the outputs of the deleted sub-compartment's steps stay in the hierarchy as variables nothing declares
+        # any more; a rebuilt engine does not take undeclared variables over from the state
+        def strip(d):
+            if isinstance(d, dict):
+                return {k: strip(v) for k, v in d.items() if k not in ('hx', 'ox')}
+            return d
+        a, b = strip(a), strip(b)
     bad = [t for t in sorted(set(a) | set(b)) if a.get(t) != b.get(t)]
     V.check('rebuilt_engine_continues', not bad,
             lambda: ('trajectory of the rebuilt engine differs from the continued one at t=%r' % bad[0],
